@@ -125,8 +125,10 @@ def validate_prepare_data(data, poly_trend, n_offsets):
                          "priors on constant offsets specified (i.e. "
                          "v0_offsets)")
 
+    # keep the merged data points in concatenation order, so that they stay
+    # row-aligned with their survey labels in `ids`
     all_data = RVData(t=Time(t, format='mjd', scale='tcb'),
-                      rv=rv, rv_err=err)
+                      rv=rv, rv_err=err, sort=False)
 
     trend_M = get_trend_design_matrix(all_data, ids, poly_trend)
 
